@@ -120,7 +120,7 @@ def _run(ctx):
     ctx.sample({"recipe": ex, "output": gen.build(ex).get_html_string()})
 
     # 2. random valid trees
-    for _ in range(ctx.budget(6000, 400000)):
+    for _ in range(ctx.budget(20000, 5000000)):
         ids = lg.Ids()
         depth = rng.choice([1, 2, 3, 4, 5, 6, 8])
         as_list = rng.random() < 0.25
